@@ -2,12 +2,12 @@
 //! source, components descriptions.
 
 use crate::clockgen::{gen_clock, ClockCfg, CF};
-use crate::gens::{build_jitter, construct, Constructed, DynGen, Kind, SeedSpec, SutFail, DET_KINDS};
+use crate::gens::{build_jitter, construct, guard, Constructed, DynGen, Kind, SeedSpec, SutFail, DET_KINDS};
 use crate::models::stream::Words;
 use crate::prng::Prng;
 use crate::seams::clock::ClockSpec;
 use crate::seams::source::SourceSpec;
-use crate::spec::{Op, RunEnd, Spec};
+use crate::spec::{Op, RunEnd, Spec, Stats};
 use std::sync::Arc;
 
 pub fn pick_det_kind(rng: &mut Prng) -> Kind {
@@ -419,4 +419,71 @@ pub fn components_std() -> serde_json::Value {
                       "source RNG (SimSource / FallibleSource: scripted bytes, call+byte accounting, injected faults)",
                       "disk (a Vec<u8> holding the snapshot)", "scheduler (baton passing over real OS threads)"]
     })
+}
+
+
+/// Seeding sweep: `count` constructions of one type from consecutive / sparse / hashed seeds, one
+/// native output each (key schedules are data-dependent arithmetic that no output history reaches).
+/// aux = [base, count, mode]; mode 0: seed_from_u64(base + i); 1: from_seed(first LE word = base + i,
+/// rest zero); 2: from_seed(hashed bytes); 3: from_seed(last LE word = base + i, rest 0xff).
+/// Returns Err((i, failure)) at the first construction or output that panics.
+pub fn seeding_sweep_spec(rng: &mut Prng, prop: &str, variant: &str) -> Spec {
+    let mut spec = Spec { prop: prop.into(), variant: variant.into(), ..Default::default() };
+    let kind = if rng.chance(2, 3) { *rng.pick(&[Kind::Hc128, Kind::Hc128, Kind::Isaac, Kind::Isaac64]) } else { pick_det_kind(rng) };
+    spec.kind = Some(kind);
+    let base = match rng.below(4) {
+        0 => rng.below(1 << 20),
+        1 => rng.below(1 << 32),
+        2 => u64::MAX - rng.below(1 << 20),
+        _ => rng.u64(),
+    };
+    let count = if matches!(kind, Kind::Hc128 | Kind::Isaac | Kind::Isaac64) { 1500 } else { 4000 };
+    spec.aux = vec![base, count, rng.below(4)];
+    spec
+}
+
+pub fn run_seeding_sweep(spec: &Spec, st: &mut Stats) -> Result<(), (u64, SutFail)> {
+    let kind = spec.kind.expect("kind");
+    let (base, count, mode) = (spec.aux[0], spec.aux[1], spec.aux[2]);
+    let n = kind.seed_len();
+    st.count("probe:seeding_sweep");
+    for i in 0..count {
+        let x = base.wrapping_add(i);
+        let seed = match mode {
+            0 => SeedSpec::U64(x),
+            1 => {
+                let mut b = vec![0u8; n];
+                let w = x.to_le_bytes();
+                let k = n.min(8);
+                b[..k].copy_from_slice(&w[..k]);
+                SeedSpec::Bytes(b)
+            }
+            2 => {
+                let mut b = vec![0u8; n];
+                for (j, c) in b.chunks_mut(8).enumerate() {
+                    let h = crate::prng::h2(x, j as u64).to_le_bytes();
+                    c.copy_from_slice(&h[..c.len()]);
+                }
+                SeedSpec::Bytes(b)
+            }
+            _ => {
+                let mut b = vec![0xffu8; n];
+                let w = x.to_le_bytes();
+                let k = n.min(8);
+                b[n - k..].copy_from_slice(&w[..k]);
+                SeedSpec::Bytes(b)
+            }
+        };
+        match crate::gens::construct(kind, &seed) {
+            Ok(crate::gens::Constructed::Ok(mut g, _)) => match guard(|| g.next_u64()) {
+                Ok(v) => st.log.u64(v),
+                Err(e) => return Err((i, e)),
+            },
+            Ok(crate::gens::Constructed::Err(..)) => {}
+            Err(e) => return Err((i, e)),
+        }
+        st.evals += 1;
+    }
+    st.sig(&[77, kind.id(), mode]);
+    Ok(())
 }
